@@ -396,6 +396,29 @@ func (g *gm) stmt(s ast.Stmt) []string {
 			return []string{"(.skip " + gmStr(g.f.src(x)) + ")"}
 		}
 		if c, ok := x.X.(*ast.CallExpr); ok {
+			if id, ok := c.Fun.(*ast.Ident); ok && id.Name == "copy" && len(c.Args) == 2 {
+				// `copy(d[lo:hi], src)` / `copy(d, src)` with d a variable: d = copyInto(d, lo, hi, src) (no aliasing:
+				// the destination window belongs to d alone)
+				var dst ast.Expr = c.Args[0]
+				lo, hi := "(.int 0)", ""
+				if sl, ok := dst.(*ast.SliceExpr); ok && !sl.Slice3 {
+					dst = sl.X
+					if sl.Low != nil {
+						lo = g.expr(sl.Low)
+					}
+					if sl.High != nil {
+						hi = g.expr(sl.High)
+					}
+				}
+				if d, ok := dst.(*ast.Ident); ok {
+					dv := g.expr(d)
+					if hi == "" {
+						hi = "(.len " + dv + ")"
+					}
+					return []string{"(.assign [" + dv + "] [(.call \"copyInto\" [" + dv + ", " + lo + ", " + hi + ", " + g.expr(c.Args[1]) + "])])"}
+				}
+				return []string{"(.unsupported " + g.bad("copy into a non-variable", x) + ")"}
+			}
 			if id, ok := c.Fun.(*ast.Ident); ok && id.Name == "delete" && len(c.Args) == 2 {
 				m := g.expr(c.Args[0])
 				return []string{"(.assign [" + m + "] [(.call \"mapDelete\" [" + m + ", " + g.expr(c.Args[1]) + "])])"}
@@ -798,6 +821,11 @@ func genGoMiniAll() []*leanFile {
 			"apiServer.publishInternal", "apiServer.PublishToSubject", "apiServer.SetCursor", "apiServer.FetchCursor",
 			"apiServer.JoinConsumerGroup", "apiServer.LeaveConsumerGroup"}},
 		[]string{sv + "api.go"})})
+	en := "server/encryption/"
+	out = append(out, &leanFile{name: "GoSeal", raw: genGoMini("GoSeal",
+		[]string{en + "localkey_handler.go"},
+		map[string][]string{en + "localkey_handler.go": {"LocalEncryptionHandler.Seal", "LocalEncryptionHandler.Read", "LocalEncryptionHandler.decryptData"}},
+		[]string{en + "localkey_handler.go"})})
 	tl := "server/telemetry/"
 	out = append(out, &leanFile{name: "GoTelemetry", raw: genGoMini("GoTelemetry",
 		[]string{tl + "telemetry.go", sv + "config.go"},
